@@ -436,7 +436,12 @@ func (f *Federation) eventStreamHandler(sess *session, in *Event) (ack *Ack) {
 		pubMsg := eventToMessage(msg)
 		f.publisher.Publish(pubMsg)
 		if pubMsg.Retained {
-			f.retainedStore.AddOrReplace(pubMsg)
+			// as for a local PUBLISH: a retained message with an empty payload clears the retained message
+			if len(pubMsg.Payload) == 0 {
+				f.retainedStore.Remove(pubMsg.Topic)
+			} else {
+				f.retainedStore.AddOrReplace(pubMsg)
+			}
 		}
 		return &Ack{EventId: eventID}
 	}
